@@ -296,14 +296,14 @@ def load_merges(P, R, rule='C15.MPT.3'):
     allowed = set()
     for a in merges[0].ev['args']:
         rvv = root_var(a)
-        if rvv is not None and rvv.get('sc') in ('static', 'global'):
+        if rvv is not None and rvv.get('sc') in ('file_static', 'static_local', 'global'):
             allowed.add(rvv['name'])
     k = 0
     for f in closure:
         for s in f.sites():
             for lv in P.written_lvalues(s):
                 rvv = root_var(lv)
-                if rvv is None or rvv.get('sc') not in ('static', 'global'):
+                if rvv is None or rvv.get('sc') not in ('file_static', 'static_local', 'global'):
                     continue
                 if rvv['name'] in allowed or 'log' in rvv['name']:
                     continue
